@@ -49,7 +49,7 @@ ASSUMPTIONS = [
     "valid credential material is only what the server itself issues (password/token, cookie signed with its secret)",
 ]
 LEVEL_TEXT = ("Exhaustive over the enumerated product in the thorough tier. Quick tier: the full xsrf x sfs product for every "
-              "implemented route x method under 8 key credential forms, and a rotating diagonal (every route x method x "
+              "implemented route x method under 6 key credential forms, and a rotating diagonal (every route x method x "
               "credential present with one xsrf/sfs pair) for the rest; random raw requests beyond the table.")
 LEVEL_NOTE = "tornado HTTP parsing/cookie signing, loopback transport, harness state digest"
 QUICK_N = 6_000  # fuzz part; the enumerated part is sized by the product
@@ -135,7 +135,7 @@ CREDS = [
 ]
 CRED_CLASS = dict(CREDS)
 # key credential forms that get the full xsrf x sfs product in the quick tier
-KEY_CREDS = ("none", "q-wrong", "h-bearer-wrong", "c-forged-sig", "c-wrong-secret", "q-valid", "h-bearer-valid", "c-valid")
+KEY_CREDS = ("none", "q-wrong", "c-forged-sig", "q-valid", "h-bearer-valid", "c-valid")
 
 XSRF = [
     ("none", False), ("cookie-only", False), ("header-only", False), ("mismatch", False), ("default-cookie-name", False),
